@@ -255,6 +255,49 @@ def do_fermi(req, conns, tf, jax):
     return out
 
 
+
+# ----------------------------------------------------- Euler decomposition (relational spec)
+def do_euler(req, conns, tf, jax):
+    """piquasso/_math/decompositions.py:euler on each connector, judged by the *relation* it has
+    to satisfy (the factors are not unique): U_last, U_first unitary, squeezings real, and
+    U_last . S(D) . U_first reproduces the passive and the active block."""
+    from piquasso._math.decompositions import euler
+
+    ref = conns["np"]
+    cfg = pq.Config()
+    out = []
+    for case in req:
+        res = {}
+        for kind in case.get("kinds", ["np", "tf", "jax"]):
+            conn = conns[kind]
+            xp = conn.np
+            try:
+                if "gate" in case:
+                    ins, _ = build_instruction(case["gate"])
+                    P = ins._get_passive_block(conn, cfg)
+                    A = ins._get_active_block(conn, cfg)
+                else:
+                    P = xp.asarray(cplx(case["P"]))
+                    A = xp.asarray(cplx(case["A"]))
+                S = conn.block([[P, A], [xp.conj(A), xp.conj(P)]])
+                U, D, V = euler(S, conn)
+                U, D, V, P, A = (np.asarray(x) for x in (U, D, V, P, A))
+                sq = [pq.Squeezing(r=float(np.real(r)), phi=0.0) for r in D]
+                pas = np.diag([g._get_passive_block(ref, cfg)[0, 0] for g in sq])
+                act = np.diag([g._get_active_block(ref, cfg)[0, 0] for g in sq])
+                eye = np.eye(len(D))
+                res[kind] = {
+                    "err_passive": float(np.max(np.abs(U @ pas @ V - P))),
+                    "err_active": float(np.max(np.abs(U @ act @ np.conj(V) - A))),
+                    "err_unitary": float(max(np.max(np.abs(U @ np.conj(U).T - eye)),
+                                             np.max(np.abs(V @ np.conj(V).T - eye)))),
+                    "imag_squeezing": float(np.max(np.abs(np.imag(D)))),
+                }
+            except Exception as e:  # noqa: BLE001
+                res[kind] = exc(e)
+        out.append(res)
+    return out
+
 # ------------------------------------------------------------------------------ programs
 def build_instruction(spec, params_override=None):
     """spec = [name, modes, {param: value}] ; complex values as {"re":..,"im":..};
@@ -451,7 +494,8 @@ def main():
     clock("import_piquasso", T0)
     conns, tf, jax = make_connectors()
     out = {"piquasso_file": pq.__file__}
-    for name, fn in (("ops", do_ops), ("interf", do_interf), ("fermi", do_fermi), ("programs", do_programs)):
+    for name, fn in (("ops", do_ops), ("interf", do_interf), ("fermi", do_fermi), ("euler", do_euler),
+                     ("programs", do_programs)):
         if name in req:
             t = time.time()
             out[name] = fn(req[name], conns, tf, jax)
